@@ -217,7 +217,7 @@ def gen(rng):
 
 def run(ctx):
     import glob, json
-    n = ctx.n(200, 3000)
+    n = ctx.n(200, 2000)
     corpus = [json.load(open(f))["cfg"] for f in sorted(glob.glob("/verif/corpus/C07/*.json"))]
     failures = []; stats = dict(by_kind={}, skipped=0, with_ongoing=0, with_retryq=0, cont_ops=0, corpus_cases=len(corpus)); distinct = 0; seen = set(); samples = []
     for i in range(n):
